@@ -12,7 +12,7 @@ CompiledOnlyIfAccepted == stage = "compiled" => outcome.class = "accept"
 
 (* step relation for trace validation: observation o = [transpile, compile, echo] of one script with tags *)
 KnownCompileFailTags == {"try-except", "list-parameter", "animate-in-function", "undeclared-receiver", "device-in-compound-statement",
-                         "name-retyped", "main-loop-variable-used-in-helper"}
+                         "name-retyped", "main-loop-variable-used-in-helper", "global-list-from-helper-indexed-outside"}
 CompileDiff(o) ==
     IF o.transpile # "accept" THEN ""                         \* refused (or crashed: C11's business): outside C06
     ELSE IF o.compile = "fail" THEN "accepted-script-does-not-compile"
